@@ -175,7 +175,12 @@ func (propC03) Gen(seed uint64, ex map[string]bool) interface{} {
 	for i := 0; i < n; i++ {
 		add("map-order", func(e *c03Env) { e.MapOrder = simrt.OrderRotate; e.Rot = 2 + i })
 	}
-	add("combined", func(e *c03Env) { e.MapOrder = simrt.OrderShuffle; e.Build = 1; e.Clock += 86400e9; e.Pool = simrt.PoolRandom })
+	add("combined", func(e *c03Env) {
+		e.MapOrder = simrt.OrderShuffle
+		e.Build = 1
+		e.Clock += 86400e9
+		e.Pool = simrt.PoolRandom
+	})
 	return sc
 }
 
